@@ -6,6 +6,9 @@ HEADER = 'From WM Require Import Base.Prelude Message.Model Handler.RouterHandle
 ANCHORS = ['components/requestreply/backend_pubsub.go', 'components/requestreply/command_bus.go',
            'components/requestreply/handler.go', 'components/requestreply/backend_pubsub_marshaler.go']
 
+EK = ['EPlain', 'EWrapped', 'ECanceled', 'EDeadline', 'ECtxOwn', 'ECtxOwnWrapped', 'ECtxOwn']
+CX = ['CtxLive', 'CtxCancelled', 'CtxTimedOut']
+EKN = ['plain', 'wrapped', 'context.Canceled', 'context.DeadlineExceeded', 'own ctx.Err() (cancelled)', 'wrapped own ctx.Err()', 'own ctx.Err() (timed out)']
 SIG_PARKED = 'C18/listener-parked-on-full-reply-channel(D10)'
 
 TRUSTED_BASE = [
@@ -208,8 +211,8 @@ def kind_name(r):
 def delivery_term(sc, d):
     st = d['step']
     cfg = '(PCfg %s %s %s)' % (C.coq_bool(sc['ack_errors']), C.coq_bool(sc['has_modify']), C.coq_bool(sc['has_errh']))
-    inp = '(PIn true %s %s %s %s true true %s %s)' % (N(d['op']), N(max(d['res'], 0)), ('(Some %s)' % N(d['err'])) if d['haserr'] else 'None', N(d['nid']),
-                                                    C.coq_bool(not st['pubfail']), C.coq_bool(st['swallow']))
+    inp = '(PIn true %s %s %s %s true true %s %s %s %s)' % (N(d['op']), N(max(d['res'], 0)), ('(Some %s)' % N(d['err'])) if d['haserr'] else 'None', N(d['nid']),
+                                                    C.coq_bool(not st['pubfail']), C.coq_bool(st['swallow']), EK[d.get('errkind', 0)], CX[d.get('ctxstate', 0)])
     enc = C.coq_list(['(%s, %s)' % (N(max(d['enc'][0], 0)), optN(d['enc'][1]))])
     tr = []; final = 'Unsettled'; bad = []
     for e in d['events']:
@@ -294,9 +297,10 @@ def run_once(ctx, res, seed, n, reqs, tag):
                 for b in bad:
                     res.violations.append(dict(signature='C18/reply-topic', what=b, case=describe_delivery(sc, req, d)))
                 dcases.append((sc, req, d, t))
+                if d['step']['fail']: res.count('handler_error_value=%s, handler context %s' % (EKN[d.get('errkind', 0)], ['live', 'cancelled', 'timed out'][d.get('ctxstate', 0)]))
                 res.count('delivery=%s%s%s' % (('error' if d['step']['err'] else 'error with empty text') if d['step']['fail'] else 'ok', ',publish-fails' if d['step']['pubfail'] else '', ',swallowed' if d['step']['pubfail'] and d['step']['swallow'] and sc['has_errh'] else ''))
                 if d['step']['fail'] or d['step']['pubfail'] or d['k'] > 0:
-                    res.nontrivial.add(('delivery', sc['ack_errors'], sc['has_errh'], d['step']['fail'], d['step']['err'] == '', d['step']['pubfail'], d['step']['swallow'], min(d['k'], 2), sc['with_result']))
+                    res.nontrivial.add(('delivery', sc['ack_errors'], sc['has_errh'], d['step']['fail'], d.get('errkind', 0), d.get('ctxstate', 0), d['step']['err'] == '', d['step']['pubfail'], d['step']['swallow'], min(d['k'], 2), sc['with_result']))
     for part, chunk in enumerate(C.chunks(lcases, 150)):
         r = C.coq_eval(pid, 'cases_%s_l%d' % (tag, part), HEADER + 'Definition cases : list c18_listen_case := %s.\n' % C.coq_list([c[2] for c in chunk]),
                        [('R_mis', 'c18_listen_mismatches cases'), ('R_vio', 'c18_listen_violations cases')])
@@ -346,8 +350,8 @@ def run_once(ctx, res, seed, n, reqs, tag):
 
 def glue_term(g):
     cfg = '(PCfg %s %s %s)' % (C.coq_bool(g['ack_errors']), C.coq_bool(g['modify'] != 0), C.coq_bool(g['errh'] != 0))
-    inp = '(PIn %s %s %s %s %s %s %s %s %s)' % (C.coq_bool(g['orig']), N(g['op']), N(g['res']), ('(Some %s)' % N(g['err_id'])) if g['err'] else 'None', N(g['nid']),
-                                                 C.coq_bool(g['modify'] != 2), C.coq_bool(g['topic_ok']), C.coq_bool(g['pub_ok']), C.coq_bool(g['errh'] == 1))
+    inp = '(PIn %s %s %s %s %s %s %s %s %s %s %s)' % (C.coq_bool(g['orig']), N(g['op']), N(g['res']), ('(Some %s)' % N(g['err_id'])) if g['err'] else 'None', N(g['nid']),
+                                                 C.coq_bool(g['modify'] != 2), C.coq_bool(g['topic_ok']), C.coq_bool(g['pub_ok']), C.coq_bool(g['errh'] == 1), EK[g.get('errkind', 0)], CX[g.get('ctxstate', 0)])
     enc = C.coq_list(['(%s, %s)' % (N(g['enc'][0]), optN(g['enc'][1]))])
     evs = []; bad = []
     for e in g['events']:
@@ -370,7 +374,7 @@ def run_glue(ctx, res, data):
         for b in bad:
             res.violations.append(dict(signature='C18/glue', what=b, case=g))
         cases.append((g, t))
-        key = ('glue', g['ack_errors'], g['modify'], g['errh'], g['orig'], g['has_op'], g['marshal_ok'], g['topic_ok'], g['pub_ok'], g['err'], g['empty_text'])
+        key = ('glue', g['ack_errors'], g['modify'], g['errh'], g['orig'], g['has_op'], g['marshal_ok'], g['topic_ok'], g['pub_ok'], g['err'], g['empty_text'], g.get('errkind', 0))
         if not (g['orig'] and g['has_op'] and g['marshal_ok'] and g['topic_ok'] and g['pub_ok'] and g['modify'] != 2 and not g['err']):
             res.nontrivial.add(key)
     res.count('handler_branch_matrix_cases', len(cases))
